@@ -37,6 +37,12 @@ type storeExtra struct {
 	Bundles []storeBSpec `json:"bundles"`
 }
 
+// storeCrash aborts an operation at a crash point: the goroutine unwinds out of the store without
+// executing another step, like a killed process.
+type storeCrash struct{}
+
+var errStoreCrashed = fmt.Errorf("sim: process killed inside the operation")
+
 type mPart struct {
 	off, length uint64
 	wire        []byte
@@ -54,6 +60,7 @@ type mRec struct {
 	lifeEnd time.Time // end of the bundle's own lifetime (afterwards its parts no longer parse as valid)
 	payload []byte
 	concurrentlyPushed bool
+	halfDeleted        bool // a kill inside Delete: may be listed, parts may be missing
 	maybeGone          bool
 }
 
@@ -106,6 +113,8 @@ type storeSim struct {
 	snapN        int
 	inflightUnreadable bool
 	stop         bool
+	inPlace      bool // the armed crash aborts the operation and the store is reopened on the same directory
+	crashed      bool
 }
 
 func runStoreCase(c *simk.Case) *simk.Result {
@@ -152,7 +161,9 @@ func runStoreCase(c *simk.Case) *simk.Result {
 // hook: parks only when a crash is armed for this operation or two pushes run concurrently.
 func (s *storeSim) hook(point, key string) {
 	if s.crashArmed || s.concurrent {
-		s.sched.Park("store."+point, key, nil)
+		if v := s.sched.Park("store."+point, key, nil); v == "crash" {
+			panic(storeCrash{})
+		}
 	}
 }
 
@@ -283,8 +294,12 @@ func (s *storeSim) run(what string, fs ...func() error) []error {
 		go func() {
 			defer func() {
 				if r := recover(); r != nil {
-					errs[i] = fmt.Errorf("panic: %v", r)
-					s.res.Violate("C08", "no-panic", "store-operation-panics/"+what, "%s panicked: %v", what, r)
+					if _, ok := r.(storeCrash); ok {
+						errs[i] = errStoreCrashed
+					} else {
+						errs[i] = fmt.Errorf("panic: %v", r)
+						s.res.Violate("C08", "no-panic", "store-operation-panics/"+what, "%s panicked: %v", what, r)
+					}
 				}
 				done[i] = true
 			}()
@@ -324,6 +339,13 @@ func (s *storeSim) drain() {
 				s.snapshotAndVerify(parked[0].Point)
 			}
 		}
+		if s.crashArmed && s.inPlace && s.crashHits == s.crashAt && !s.crashed {
+			s.crashed = true
+			s.res.Fault("crash_in_place")
+			s.lg.Add("killed at %s:%s", parked[0].Point, shortKey(parked[0].Key))
+			s.sched.Release(parked[0], "crash")
+			continue
+		}
 		t := parked[0]
 		if s.concurrent && len(parked) > 1 {
 			t = parked[int(simk.Decide(s.seed, "pick", strconv.Itoa(s.steps))%uint64(len(parked)))]
@@ -343,11 +365,13 @@ func (s *storeSim) exec(op simk.Op) {
 		if sp == nil || sp.Frag {
 			return
 		}
+		s.inPlace = op.P == 1
 		s.opPush(sp, op.M)
 	case "push_frag":
 		if sp == nil || !sp.Frag || len(op.X) != 2 {
 			return
 		}
+		s.inPlace = op.P == 1
 		s.opPushFrag(sp, op.X[0], op.X[1], op.M)
 	case "push2":
 		if sp == nil || !sp.Frag || len(op.X) != 4 {
@@ -363,6 +387,7 @@ func (s *storeSim) exec(op simk.Op) {
 		if sp == nil {
 			return
 		}
+		s.inPlace = op.P == 1
 		s.opDelete(sp, op.M)
 	case "sweep":
 		s.opSweep()
@@ -379,6 +404,7 @@ func (s *storeSim) exec(op simk.Op) {
 }
 
 func (s *storeSim) arm(k int64, desc, tag string) {
+	s.crashed = false
 	s.crashArmed = k > 0
 	s.crashAt = int(k)
 	s.crashHits = 0
@@ -406,6 +432,10 @@ func (s *storeSim) opPush(sp *storeBSpec, crashAt int64) {
 	s.arm(crashAt, "push "+sp.Tag, sp.Tag)
 	errs := s.run("push", func() error { return s.st.Push(b) })
 	s.disarm()
+	if errs[0] == errStoreCrashed {
+		s.afterKill(sp, func(rec *mRec) { rec.parts = []mPart{{0, 0, wire}} }, false, b.ID().Scrub(), b)
+		return
+	}
 	if errs[0] != nil {
 		s.res.Violate("C08", "push", "push-errors", "Push(%s): %v", sp.Tag, errs[0])
 		return
@@ -430,6 +460,10 @@ func (s *storeSim) opPushFrag(sp *storeBSpec, off, length int, crashAt int64) {
 	s.arm(crashAt, fmt.Sprintf("push_frag %s [%d,+%d)", sp.Tag, off, length), sp.Tag)
 	errs := s.run("pushfrag", func() error { return s.st.Push(f) })
 	s.disarm()
+	if errs[0] == errStoreCrashed {
+		s.afterKillFrag(sp, w, off, length, wire)
+		return
+	}
 	if errs[0] != nil {
 		s.res.Violate("C08", "push", "push-errors", "Push(%s fragment): %v", sp.Tag, errs[0])
 		return
@@ -541,6 +575,15 @@ func (s *storeSim) opDelete(sp *storeBSpec, crashAt int64) {
 	s.arm(crashAt, "delete "+sp.Tag, sp.Tag)
 	errs := s.run("delete", func() error { return s.st.Delete(id) })
 	s.disarm()
+	if errs[0] == errStoreCrashed {
+		s.reopenAfterKill("delete " + sp.Tag)
+		if rec != nil {
+			// the record may still be listed (index entry) while part files are gone: a half-deleted
+			// record. Nothing is demanded of it except that it can be got rid of.
+			rec.halfDeleted = true
+		}
+		return
+	}
 	if errs[0] != nil {
 		s.res.Violate("C08", "delete", "delete-errors", "Delete(%s): %v", sp.Tag, errs[0])
 	}
@@ -613,8 +656,8 @@ func (s *storeSim) compare(st *storage.Store, where, inFlight string) {
 			}
 			continue
 		}
-		if rec.maybeGone {
-			continue
+		if rec.maybeGone || rec.halfDeleted {
+			continue // nothing is demanded of a half-deleted record except that it can be removed
 		}
 		if err != nil {
 			sig := "stored-record-not-found"
@@ -701,7 +744,7 @@ func (s *storeSim) compare(st *storage.Store, where, inFlight string) {
 	if len(pend) != wantPend && inFlight == "" {
 		maybe := 0
 		for _, r := range s.model {
-			if r.maybeGone {
+			if r.maybeGone || r.halfDeleted {
 				maybe++
 			}
 		}
@@ -863,16 +906,20 @@ func genStoreCase(seed uint64, tier, focus, variant string) *simk.Case {
 		b := r.Intn(nb)
 		sp := &ex.Bundles[b]
 		crash := int64(0)
+		inPlace := 0
 		if r.Bool(0.3) {
 			crash = int64(r.Range(1, 3))
+			if r.Bool(0.5) {
+				inPlace = 1 // the kill is real for the rest of the run: the store is reopened on the surviving directory
+			}
 		}
 		switch x := r.Intn(100); {
 		case x < 38:
 			if sp.Frag {
 				off, l := rng(sp)
-				c.Ops = append(c.Ops, simk.Op{K: "push_frag", B: b, X: []int{off, l}, M: crash})
+				c.Ops = append(c.Ops, simk.Op{K: "push_frag", B: b, X: []int{off, l}, M: crash, P: inPlace})
 			} else {
-				c.Ops = append(c.Ops, simk.Op{K: "push", B: b, M: crash})
+				c.Ops = append(c.Ops, simk.Op{K: "push", B: b, M: crash, P: inPlace})
 			}
 		case x < 46:
 			if sp.Frag {
@@ -883,7 +930,7 @@ func genStoreCase(seed uint64, tier, focus, variant string) *simk.Case {
 		case x < 60:
 			c.Ops = append(c.Ops, simk.Op{K: "update", B: b, S: r.PickS("pending", "pending", "prop", "expire"), N: int64(r.Pick(0, 1, 1, 5000, 700000))})
 		case x < 72:
-			c.Ops = append(c.Ops, simk.Op{K: "delete", B: b, M: crash})
+			c.Ops = append(c.Ops, simk.Op{K: "delete", B: b, M: crash, P: inPlace})
 		case x < 80:
 			c.Ops = append(c.Ops, simk.Op{K: "sweep"})
 		case x < 92:
@@ -893,4 +940,49 @@ func genStoreCase(seed uint64, tier, focus, variant string) *simk.Case {
 		}
 	}
 	return c
+}
+
+// reopenAfterKill: the process is gone; a new one opens the same directory.
+func (s *storeSim) reopenAfterKill(what string) {
+	_ = s.st.Close()
+	if err := s.open(); err != nil {
+		s.res.Violate("C08", "crash-reopen", "store-does-not-open-after-crash", "killed during %s: NewStore on the same directory: %v", what, err)
+		s.res.HarnessErr = "cannot continue: " + err.Error()
+		return
+	}
+	s.res.Probe("reopened_after_kill")
+}
+
+// afterKill (whole bundle push): the record is either absent or complete - observe which.
+func (s *storeSim) afterKill(sp *storeBSpec, fill func(*mRec), frag bool, id bpv7.BundleID, b bpv7.Bundle) {
+	s.reopenAfterKill("push " + sp.Tag)
+	if s.st == nil || s.model[sp.Tag] != nil {
+		return
+	}
+	if _, err := s.st.QueryId(id); err == nil {
+		rec := &mRec{tag: sp.Tag, id: id, payload: s.payload(sp), total: uint64(sp.PayLen),
+			expires: b.PrimaryBlock.CreationTimestamp.DtnTime().Time().Add(time.Duration(sp.LifeMs) * time.Millisecond)}
+		rec.lifeEnd = rec.expires
+		fill(rec)
+		s.model[sp.Tag] = rec // from now on it must behave like an acknowledged record (readable: never garbage)
+	}
+}
+
+// afterKillFrag: the fragment is either recorded completely or not at all.
+func (s *storeSim) afterKillFrag(sp *storeBSpec, w bpv7.Bundle, off, length int, wire []byte) {
+	s.reopenAfterKill("push_frag " + sp.Tag)
+	if s.st == nil {
+		return
+	}
+	bi, err := s.st.QueryId(w.ID().Scrub())
+	if err != nil {
+		return
+	}
+	for _, p := range bi.Parts {
+		if p.FragmentOffset == uint64(off) {
+			if rec := s.model[sp.Tag]; rec == nil || !rec.hasPart(uint64(off), uint64(length)) {
+				s.modelAddFrag(sp, w, off, length, wire)
+			}
+		}
+	}
 }
